@@ -239,29 +239,77 @@ def handleRuns (line : String) : String :=
     | _ => "bad"
   | _ => "bad"
 
-/-- `machcount SPEC MODEL CODE => halt|error | addr:count ...`: a straight-line program inside the plain RAM of a real
-    machine; the access statistics of the machine afterwards against the fetches, reads and writes of the
-    specification's own run of the same program on flat memory (C03 on the real memory models) -/
+/-- the wrapper layer of a `machcount` request: none, the F256 coprocessor (`c<flags>:<base>`) or the trap placeholder
+    without a trap function (`t:<addr>`) -/
+inductive MachWrap where
+  | none
+  | coproc (flags base : Nat)
+  | trap (addr : Nat)
+
+def parseMachWrap : List String → Option MachWrap
+  | [] => some .none
+  | [w] =>
+    match w.splitOn ":" with
+    | [k, a] => do
+      let addr ← parseAddr a
+      if k == "t" then some (.trap addr.toNat)
+      else if k.startsWith "c" then do
+        let f ← (k.drop 1).toString.toNat?
+        some (.coproc f addr.toNat)
+      else none
+    | _ => none
+  | _ => none
+
+/-- The accesses the documented machine counts for the specification's run of a program, as (address, 1) increments in
+    order: every fetch, read and write of the program exactly once on the byte it names — a store that a wrapper layer
+    hands to a handler is still ONE write of that byte (a placeholder without a trap function stores it; the
+    coprocessor stores the operand) — plus the coprocessor's own documented bookkeeping after a store to an operand
+    register of an enabled unit: one load of each of the unit's four operand bytes and one store to each result byte it
+    refreshes (multiplier: base+$10..$13; divider: base+$14..$17 unless the divisor word base+4/5 is zero). -/
+def machAccesses (w : MachWrap) (evs : List Event) : List Nat :=
+  match w with
+  | .none | .trap _ => evs.map (·.addr.toNat)
+  | .coproc flags base =>
+    let mul := flags % 2 == 1
+    let div := (flags / 4) % 2 == 1
+    -- the divisor word as the program's own stores leave it (memory starts zeroed)
+    let (_, _, acc) := evs.foldl (fun (st : Nat × Nat × List Nat) e =>
+      let (d0, d1, acc) := st
+      let a := e.addr.toNat
+      let acc := a :: acc
+      if !e.write then (d0, d1, acc) else
+      let d0 := if a == base + 4 then e.val.toNat else d0
+      let d1 := if a == base + 5 then e.val.toNat else d1
+      if mul && base ≤ a && a < base + 4 then
+        (d0, d1, [base + 0x13, base + 0x12, base + 0x11, base + 0x10, base + 3, base + 2, base + 1, base] ++ acc)
+      else if div && base + 4 ≤ a && a < base + 8 then
+        let acc := [base + 7, base + 6, base + 5, base + 4] ++ acc
+        (d0, d1, if d0 != 0 || d1 != 0 then [base + 0x17, base + 0x16, base + 0x15, base + 0x14] ++ acc else acc)
+      else (d0, d1, acc)) (0, 0, [])
+    acc.reverse
+
+/-- `machcount SPEC MODEL CODE [c<flags>:<base> | t:<addr>] => halt|error | addr:count ...`: a straight-line program
+    inside the plain RAM of a real machine (optionally under the coprocessor layer or the trap placeholder); the access
+    statistics of the machine afterwards against the fetches, reads and writes of the specification's own run of the
+    same program on flat memory (C03 on the real memory models) -/
 def handleMachCount (line : String) : String :=
   match line.splitOn " => " with
   | [req, res] =>
     match words req, res.splitOn " | " with
-    | [_, spec, m, codeS], gres :: rest =>
-      let parsed : Option (CpuModel × List Nat) := do
+    | _ :: spec :: m :: codeS :: extra, gres :: rest =>
+      let parsed : Option (CpuModel × List Nat × MachWrap) := do
         let model ← if m == "0" then some CpuModel.m6502 else if m == "1" then some CpuModel.m65C02 else none
-        some (model, ← unhex codeS)
+        some (model, ← unhex codeS, ← parseMachWrap extra)
       match parsed with
       | none => "bad"
-      | some (model, code) =>
+      | some (model, code, wrap) =>
         let mem0 : List (Addr × Byte) := code.zipIdx.map fun (b, i) => (BitVec.ofNat 16 (0x0400 + i), BitVec.ofNat 8 b)
         let bus0 : SBus := { mem := mem0.reverse, trace := #[], budget := 100000 }
         match specRun model 2000 ⟨0x0400, 0xFF, 0, 0, 0, 0⟩ bus0 0 with
         | none => "agree | specok | machcount.unspecified"
         | some (_, b, _) =>
           -- the halting BRK's own fetch is an access too
-          let evs := b.trace.toList
-          let counts : List (Nat × Nat) := evs.foldl (fun (acc : List (Nat × Nat)) e =>
-            let a := e.addr.toNat
+          let counts : List (Nat × Nat) := (machAccesses wrap b.trace.toList).foldl (fun (acc : List (Nat × Nat)) a =>
             match acc.find? (·.1 == a) with
             | some (_, n) => (a, n + 1) :: acc.filter (·.1 != a)
             | none => (a, 1) :: acc) []
@@ -269,30 +317,21 @@ def handleMachCount (line : String) : String :=
           let want := " ".intercalate (sorted.map fun (a, n) => s!"{String.ofList (Nat.toDigits 16 a)}:{n}")
           let got := " ".intercalate (words (" | ".intercalate rest))
           let g := gres.trimAscii.toString
-          if g == "hostcrash" then s!"agree | VIOL C11:hostcrash:machcount:{spec} | machcount"
-          else if g == "halt" && got == want then "agree | specok | machcount"
+          let (cls, layer) := match wrap with
+            | .none => ("machcount", "")
+            | .coproc f bs => ("machcount.coproc", s!"-coproc{f}@{String.ofList (Nat.toDigits 16 bs)}")
+            | .trap t => ("machcount.trap", s!"-trap@{String.ofList (Nat.toDigits 16 t)}")
+          if g == "hostcrash" then s!"agree | VIOL C11:hostcrash:machcount:{spec} | {cls}"
+          else if g == "halt" && got == want then s!"agree | specok | {cls}"
           else
             -- the first address whose count differs
             let gl := (words got)
             let wl := (words want)
             let firstDiff := (gl.filter (fun t => !wl.contains t) ++ wl.filter (fun t => !gl.contains t)).head?.getD "?"
-            s!"DIFF trace:machine-counts | VIOL C03:machine-counts:{spec}:model={m}:{g}:first={firstDiff} | machcount"
+            s!"DIFF trace:machine-counts | VIOL C03:machine-counts{layer}:{spec}:model={m}:{g}:first={firstDiff} | {cls}"
     | _, _ => "bad"
   | _ => "bad"
 
-/-- `crash SPEC MODEL CODE => halt|error|running|hostcrash|died`: a generated program on a real memory model, run in a
-    child process of the harness; the simulated program may halt, end with an error or keep running — the host
-    process must survive -/
-def handleCrash (line : String) : String :=
-  match line.splitOn " => " with
-  | [req, res] =>
-    match words req with
-    | [_, spec, model, code] =>
-      let r := res.trimAscii.toString
-      if r == "died" || r == "hostcrash" then s!"agree | VIOL C11:hostcrash:{r}:{spec}:{model}:{code} | crash.{r}"
-      else if r == "halt" || r == "error" || r == "running" then s!"agree | specok | crash.{r}"
-      else "bad"
-    | _ => "bad"
-  | _ => "bad"
+-- the `crash` verb (host-crash stream, judged stops) lives in Driver/WinCount.lean: it needs the documented memory map
 
 end Driver
